@@ -240,6 +240,7 @@ def run(ctx, rng):
             for c in range(ctx.n(1, 3)):
                 sel = [ops[i] for i in rng.permutation(len(ops))[:ctx.n(len(ops), len(ops))]]
                 combos.append((sel, [float(rng.integers(1, 5)) / 2. for _ in sel], 1. + 0.5 * rng.random(basis.N)))
+        done_local = False
         for sel, wts, x0 in combos:
             names = [s[0] for s in sel]
             desc = {'config': cname, 'mesh_p': m.p.tolist(), 'mesh_t': m.t.tolist(), 'element': type(elem).__name__,
@@ -279,6 +280,20 @@ def run(ctx, rng):
                     return sum(a * t[2](w['u0'], u, v, w, np, H) for a, t in zip(wts, sel))
                 A = fe.BilinearForm(lin).assemble(basis, u0=basis.interpolate(x0)).toarray()
                 check('hand_linearised', key, np.abs(Jd - A).max(), np.abs(A).max(), desc)
+                # cell matrices: elemental(...)[0].tolocal()[e, i, j] = contribution of cell e, TEST function i, TRIAL function j
+                # (COOData.tolocal presumes the trial-major layout of the triplets), vs the hand-linearised form's cell matrices
+                Ln = fe.BilinearForm(lin).elemental(basis, u0=basis.interpolate(x0)).tolocal() if not done_local else None
+                if Ln is not None and float(np.abs(Ln - np.swapaxes(Ln, 1, 2)).max()) > 1e-6:      # a NON-symmetric linearisation
+                    done_local = True
+                    Lj = NonlinearForm(fj).elemental(basis, x=x0)[0].tolocal()
+                    if Lj.shape != Ln.shape:
+                        ctx.fail(f'nonlinear-tolocal:{cname}', f'cell Jacobians have shape {Lj.shape}, those of the hand-linearised form {Ln.shape}', desc)
+                    else:
+                        asym = float(np.abs(Ln - np.swapaxes(Ln, 1, 2)).max())
+                        ctx.count(('nl-tolocal', cname, names, x0.tolist()), nontrivial=asym > 1e-8)
+                        check('hand_linearised', f'nonlinear-tolocal:{cname}', np.abs(Lj - Ln).max(), np.abs(Ln).max(),
+                              dict(desc, what='NonlinearForm.elemental(...)[0].tolocal() vs BilinearForm(hand-linearised).elemental(...).tolocal()',
+                                   asymmetry_of_the_cell_matrices=asym))
         # linear integrand: reduces to ordinary assembly
         if kind == 'scalar':
             def a_np(u, v, w):
